@@ -73,6 +73,60 @@ claim('C14',
       '(D1-D5 imply the statement) is a pen-and-paper induction on the tree, stated in DESIGN.md.',
       'DESIGN.md section 3, C14')
 
+claim('C01',
+      'abstract interpretation to rational normal forms; identity with the recurrence closed form; sign-case table; precision dominance rule',
+      'Decides, as identities of exact normal forms over all integer tuples: move_dist_lt returns '
+      'FLOOR(P/2^31), P-2^31*FLOOR(P/2^31) with P the closed form of the firmware recurrence '
+      '(truncation toward zero of accel/2 is an opaque TRUNC atom, so a floor rounding differs); '
+      'the cleared accumulator follows the 9-case sign table of (tick-1 rate, accel) with every '
+      'case covered and the tested quantities identified modulo earlier equalities; mp.dps>=21 '
+      '(>=72 bits) is stored before the first mpmath operation on every path (independence from '
+      'ambient precision); the only early return is time==0 -> (0,0); the deprecated aliases '
+      'delegate with the right arguments. Not decided: exactness of the mpmath evaluation itself '
+      '(library rounding; bound argued in DESIGN.md).',
+      'Trusted: Python ast, exact Fraction polynomial arithmetic in vf/poly.py, vf/interp.py, the '
+      'closed form derived in DESIGN.md; assumption: inputs integers, mpmath correctly rounded.',
+      'DESIGN.md section 3, C01')
+
+claim('C02',
+      'abstract interpretation to rational normal forms; identity with the cubic closed form; 27-case sign table; sibling agreement with C01',
+      'Decides as normal-form identities: move_dist_t3 returns FLOOR(P3/2^31), P3-2^31*FLOOR(..) '
+      'with P3 the closed form of the third-order recurrence (TRUNC(accel/2), TRUNC(jerk/6) as '
+      'rounding atoms; the snap-to-integer idiom accepted only when provably value-preserving and '
+      'then compared modulo the implied equality); rate_t3 == ROUND(r0 + T*accel + jerk*T(T-1)/2) '
+      'for T>=1; the clear rule covers all 27 sign cases of (tick-1 rate, accel+jerk, jerk) '
+      'correctly; precision rule as C01; with jerk:=0 the extracted total equals the extracted '
+      'move_dist_lt total. Not decided: exactness of float/mpmath evaluation.',
+      'Trusted: as C01; lemma that P3 and the tick rates are integer-valued on integers.',
+      'DESIGN.md section 3, C02')
+
+claim('C03',
+      'abstract interpretation (path-enumerating decision table) + sign-case tables + closed-form identity on the returned accumulator',
+      'PARTIAL: structural necessary conditions only. Decided over all ~600 abstract paths per '
+      'accumulator mode: the cannot-move table over the 27 sign cases of (steps, rate, accel) '
+      '(early (0,0,0) exactly for steps=0 / rate=accel=0 / steps<0 and rate<0); on every computing '
+      'path the returned accumulator is the C01 polynomial of the returned duration and position, '
+      'with (rate, accel) mirrored exactly on steps<0 paths; the clear rule as in C01; precision '
+      'rule; moveTimeLM delegation. NOT decided: that the duration is the first tick reaching the '
+      'budget, the position under reversal, accumulator range - root selection and rounding are '
+      'out of reach of static analysis here (brute force at design time saw ~1% deviations, see '
+      'DESIGN.md 4.3; nothing reports them).',
+      'Trusted: as C01. The claim is deliberately limited; see DESIGN.md 3/C03 and 5.',
+      'DESIGN.md section 3, C03')
+
+claim('C17',
+      'abstract interpretation with inlined callee; candidate extraction from max(); path-fact interval rule + shortfall lemma',
+      'Decides structurally for all inputs (given the parabola lemma in DESIGN.md): every value '
+      'inside the reported max is |rate at a real tick t| of the C02 closed form with t = 1, T or '
+      'a rounding of t_mid that the path facts confine to [1,T] (so reported <= true peak); ticks '
+      '1 and T are always included for T>1 (reported >= both end rates); t_mid is 1/2-accel/jerk '
+      'as a rational normal form, divided only under jerk != 0, and whenever the vertex candidate '
+      'is omitted the guard literals satisfy the shortfall bound (loss <= |jerk|). Not decided: '
+      'float rounding of the quotient at the guard boundary.',
+      'Trusted: Python ast, vf/poly.py, vf/interp.py, the lemma on extrema of a parabola over '
+      'integer ticks.',
+      'DESIGN.md section 3, C17')
+
 
 def build():
     checks = []
